@@ -102,7 +102,7 @@ class CallMixin:
         newh = newh.set(gname, fresh('ghost_' + gname.replace(':', '_'), heap_sort(gname)))
       na = fresh('alloc', I)
       newh = newh.set('alloc', na)
-      return st.with_heap(newh).assume(na >= h.alloc)
+      return st.with_heap(newh).assume(na >= h.alloc, len_nonneg(newh.get('llen')))
     if ctr.allocates:
       na = fresh('alloc', I)
       facts.append(na >= h.alloc)
@@ -112,13 +112,18 @@ class CallMixin:
         new = fresh(a, heap_sort(a))
         facts.append(SAFE_FORALL([r], z3.Implies(z3.And(r < h.alloc, *[r != m for m in mod]),
                                                new[r] == old[r]), patterns=[new[r]]))
+        if a == 'llen':
+          facts.append(len_nonneg(new))
         newh = newh.set(a, new)
     else:
       newh = h
       for a in CONTAINER_ARRAYS:
         new = h.get(a)
         for m in mod:
-          new = z3.Store(new, m, fresh('row_' + a, heap_sort(a).range()))
+          row = fresh('row_' + a, heap_sort(a).range())
+          if a == 'llen':
+            facts.append(row >= 0)
+          new = z3.Store(new, m, row)
         newh = newh.set(a, new)
     for f in ctr.writes:
       old = h.get('f:' + f)
